@@ -80,7 +80,8 @@ func checkDefs() map[string]CheckDef {
 			each("H_resume", l(40, 44, 45), l(13), l(6), l(-1)),
 			each("H_resume", l(40, 45), l(14), l(5), l(-1)),
 			each("H_chain", l(40, 41), l(13), l(7)), each("H_chainw", l(40, 41, 44), l(1, 3, 9, 29, 31), l(3)),
-			each("H_chain_at", l(40), l(51, 56), l(3), l(5, 300)), each("H_chain_at", l(40), l(13), l(5), l(1))),
+			each("H_chain_at", l(40), l(51, 56), l(3), l(5, 300)), each("H_chain_at", l(40), l(13), l(5), l(1)),
+			each("H_resume", l(40, 41, 44), l(69), l(3), l(-1)), each("H_chain_at", l(40), l(69), l(3), l(0, 4))),
 		cat(each("H_resume", idsMsg, tplMsgHdr, l(6), l(-1)),
 			each("H_resume", l(40, 41, 44, 45), tplBoundary, l(5), l(-1)),
 			each("H_resume", idsMsgCaps, l(3, 4, 11, 12), l(5), l(-1)),
@@ -88,7 +89,7 @@ func checkDefs() map[string]CheckDef {
 			each("H_chain", l(40, 41, 44), l(13), l(6, 7)), each("H_chain", l(40), l(9), l(3)),
 			each("H_chain_at", l(40), l(51, 56), l(4), l(3)), each("H_chain_at", l(41, 44), l(1, 9, 31), l(3), l(2)),
 			each("H_resume", l(40), l(0), l(14), l(-1))),
-		"ParseSIPMsg resumed vs. one-shot. Resumption lemma (one intermediate cut, EVERY cut position symbolic, complete object state compared while suspended => every chunk schedule by induction) on message templates with one symbolic window W: 11 header kinds (From, To, Contact, PAI, CSeq, Call-ID, Content-Length+body, Expires, generic, reply, 3-header) W=4 (6) x flags 0..3; 9 boundary templates (symbolic header name, inside a folded value, end of first line, end of block, Via+Contact, reply tag, 2nd Contact / PAI value, Route) W=3 (5); 13 interior templates (inside a quoted display name, after a parameter value, parameter name, between CSeq number and method, URI inside <>, method, status code, q value, star contact, end of a reply line) W=3; limit numbers (Content-Length / CSeq / Expires whose last 2 digits are symbolic around 2^24 / 2^32); capacities default,(1,1),(0,0),(2,2); fully symbolic header block of 5-6 (8) bytes after `A B C CRLF`; all-schedules chains: full 14-byte message, and cuts anywhere in/after the window of 5 templates W=3; all schedules of two reply templates placed at offset 5 / 300",
+		"ParseSIPMsg resumed vs. one-shot. Resumption lemma (one intermediate cut, EVERY cut position symbolic, complete object state compared while suspended => every chunk schedule by induction) on message templates with one symbolic window W: 11 header kinds (From, To, Contact, PAI, CSeq, Call-ID, Content-Length+body, Expires, generic, reply, 3-header) W=4 (6) x flags 0..3; 9 boundary templates (symbolic header name, inside a folded value, end of first line, end of block, Via+Contact, reply tag, 2nd Contact / PAI value, Route) W=3 (5); 13 interior templates (inside a quoted display name, after a parameter value, parameter name, between CSeq number and method, URI inside <>, method, status code, q value, star contact, end of a reply line) W=3; limit numbers (Content-Length / CSeq / Expires whose last 2 digits are symbolic around 2^24 / 2^32); capacities default,(1,1),(0,0),(2,2); fully symbolic header block of 5-6 (8) bytes after `A B C CRLF`; all-schedules chains: full 14-byte message, and cuts anywhere in/after the window of 5 templates W=3; all schedules of two reply templates placed at offset 5 / 300; a reply whose version token is symbolic (any letter case)",
 		"buffers beyond the windows; flags changing between calls; SIPMsgNoMoreDataF (documented end-of-input mode); > 65535 bytes")
 
 	add("C02",
@@ -104,6 +105,7 @@ func checkDefs() map[string]CheckDef {
 			each("H_resume", l(5), l(26, 27, 57), l(4), l(-1)),
 			each("H_resume_at", l(0, 2, 6, 11, 23, 30), l(6), l(1, 2)),
 			each("H_chain_at", l(5), l(24, 25), l(4), l(3, 300)), each("H_chain_at", l(5, 11), l(0), l(6), l(2)),
+			each("H_resume", l(5), l(70), l(3), l(-1)), each("H_chain_at", l(5), l(70), l(3), l(2)),
 			each("H_chain", l(0, 1, 2, 6, 8, 11, 23, 30, 34), l(0), l(5)),
 			each("H_resume", l(8, 16, 19), l(18, 19), l(4), l(-1)),
 			each("H_resume", l(12, 14), l(40, 41, 42, 43), l(2), l(-1))),
@@ -134,7 +136,10 @@ func checkDefs() map[string]CheckDef {
 			each("H_premature", l(41, 43), l(13), l(7)),
 			each("H_premature", l(41), tplBoundary, l(4)),
 			each("H_premature", l(40, 42), l(7, 22, 63), l(3)), each("H_premature", l(40), l(37), l(2)),
-			each("H_premature", l(41), l(37, 38, 39), l(2)), each("H_premature", l(41), tplInterior, l(4)), each("H_premature", l(12), l(40, 41, 42, 43), l(2))),
+			each("H_premature", l(41), l(37, 38, 39), l(2)), each("H_premature", l(41), tplInterior, l(4)), each("H_premature", l(12), l(40, 41, 42, 43), l(2)),
+			each("H_premature_at", l(5), l(24, 25, 70), l(4), l(10, 300)), each("H_premature_at", l(5), l(0), l(12), l(10)),
+			each("H_premature_at", l(41, 42), l(10, 51, 56, 69), l(3), l(6)), each("H_premature_at", l(40), l(7), l(3), l(6)), each("H_premature_at", l(11, 12), l(15, 16, 17), l(3), l(2)),
+			each("H_premature_at", l(6, 8, 9, 16, 19), l(58, 60, 62), l(3), l(7))),
 		cat(each("H_premature", idsLoop, l(0), l(14)),
 			each("H_premature", idsNameAddr, l(0), l(11)),
 			each("H_premature", idsHdrLine, l(0), l(11)),
@@ -143,7 +148,7 @@ func checkDefs() map[string]CheckDef {
 			each("H_premature", idsTok, l(0), l(11)),
 			each("H_premature", idsURILists, l(0), l(10)),
 			each("H_premature", l(41, 42, 43), tplMsgHdr, l(6))),
-		"every streaming parser: a definitive verdict on the first n-1 bytes vs. the verdict and values on n bytes (one-byte extension; any suffix follows by induction inside the bound): fully symbolic n = 8-11 (10-14) bytes for all 36 sub-parser adapters, name-addr interior templates, first line 15 bytes and templates; message parser with flags skip-body / clen-required (and flags 0 on templates that carry Content-Length) on header, boundary, interior and limit-number templates W=2-4 (6)",
+		"every streaming parser: a definitive verdict on the first n-1 bytes vs. the verdict and values on n bytes (one-byte extension; any suffix follows by induction inside the bound): fully symbolic n = 8-11 (10-14) bytes for all 36 sub-parser adapters, name-addr interior templates, first line 15 bytes and templates; message parser with flags skip-body / clen-required (and flags 0 on templates that carry Content-Length) on header, boundary, interior and limit-number templates W=2-4 (6); every prefix of first-line, header-line, name-addr and message templates placed at a non-zero offset (6..300)",
 		"message parser without Content-Length and without skip-body/clen-required (documented exemption: the body is the rest of the buffer); SIPMsgNoMoreDataF, POptInputEndF")
 
 	add("C04",
@@ -174,28 +179,32 @@ func checkDefs() map[string]CheckDef {
 			each("H_C05", l(13), l(7), l(0, 1)),
 			each("H_C05", l(14, 16), l(5), l(0)),
 			each("H_C05", tplBoundary, l(4), l(0)), each("H_C05", tplInterior, l(4), l(0)),
-			each("H_C05_chunk", l(1, 3, 5, 11, 12, 29, 32, 34, 35, 44, 46, 49, 52), l(3))),
+			each("H_C05_chunk", l(1, 3, 5, 11, 12, 29, 32, 34, 35, 44, 46, 49, 52), l(3)),
+			each("H_C05_at", l(7, 10, 12, 33, 55), l(3), l(2, 300)), each("H_C05_at", l(1, 3, 5, 9, 56), l(3), l(7))),
 		cat(each("H_C05", l(1, 2, 3, 4, 5, 6, 7, 8, 9, 10, 11, 12), l(6), l(0, 1, 2)), each("H_C05", l(1, 3, 4, 9, 11), l(7), l(0)),
 			each("H_C05", tplBoundary, l(6), l(0)), each("H_C05", tplInterior, l(6), l(0)), each("H_C05_chunk", l(1, 3, 11, 44, 46, 49, 52), l(5)),
 			each("H_C05", l(13), l(9, 10), l(0))),
-		"ParseSIPMsg one-shot on 12 header templates W=4 (6-7), 9 boundary and 13 interior templates W=4 (6), repeated Contact headers, fully symbolic 7 (10)-byte header block; the same layout facts on an object resumed at one symbolic cut (13 templates W=3 (5)): containment, first-line order, header order / own-line / trimming, nesting of From/To/CSeq/Call-ID/Contact/PAI sub-fields, body and raw-message extents",
-		"chunked parsing is covered through C01 (same observables); longer messages")
+		"ParseSIPMsg one-shot on 12 header templates W=4 (6-7), 9 boundary and 13 interior templates W=4 (6), repeated Contact headers, fully symbolic 7 (10)-byte header block; the same layout facts on an object resumed at one symbolic cut (13 templates W=3 (5)): containment, first-line order, header order / own-line / trimming, nesting of From/To/CSeq/Call-ID/Contact/PAI sub-fields, body and raw-message extents; the same for messages at offsets 2, 7, 300 under all 8 flag sets (symbolic), one-shot or resumed at a symbolic cut",
+		"schedules of more than two pieces are covered through C01 (same observables); longer messages")
 
 	add("C06",
 		cat(each("H_C06_clen", seq(1, 3), seq(0, 3)), each("H_C06_clen", l(7, 8, 9, 10), l(0, 1)),
 			each("H_C06_noclen", seq(0, 3)),
 			each("H_C06_clen_at", l(1, 2), seq(0, 3), l(1, 300)), each("H_C06_clen_at", l(3, 8), l(2), l(2, 70)),
+			each("H_C06_clen_chunk", l(1, 2), l(1, 3), l(0, 5), l(1, 2, 3)), each("H_C06_clen_chunk", l(3), l(2), l(0), l(1, 2)), each("H_C06_clen_chunk", l(8), l(1), l(2), l(1)),
 			each("H_C06_pipe", l(2, 3), l(2), l(0, 2)), each("H_C06_pipe3", l(2, 3), l(0, 1, 300))),
 		cat(each("H_C06_clen", seq(1, 3), seq(4, 8)), each("H_C06_clen", l(4, 5, 6, 11, 12), l(0, 2)),
-			each("H_C06_clen_at", seq(1, 3), seq(0, 8), l(3, 47, 4096)),
+			each("H_C06_clen_at", seq(1, 3), seq(0, 8), l(3, 47, 4096)), each("H_C06_clen_chunk", l(1, 2, 3, 8, 10), l(0, 2, 4), l(0, 9), l(1, 2, 3)),
 			each("H_C06_pipe", l(4), l(3), l(0, 1, 3))),
-		"skeleton request with Content-Length of 1-10 (12) symbolic digits and 0-3 (8) body bytes, all 8 flag combinations symbolic, the message at offset 0 and at offsets 1, 2, 70, 300 (3, 47, 4096); no-Content-Length variants; two and three pipelined messages (request with body, reply, request) with symbolic header-value windows, the first at offset 0, 1, 300",
+		"skeleton request with Content-Length of 1-10 (12) symbolic digits and 0-3 (8) body bytes, all 8 flag combinations symbolic, the message at offset 0 and at offsets 1, 2, 70, 300 (3, 47, 4096); the header spelled `Content-Length :`, `l HT SP:` or in upper case with the message delivered in two pieces (every cut); no-Content-Length variants; two and three pipelined messages (request with body, reply, request) with symbolic header-value windows, the first at offset 0, 1, 300",
 		"header blocks other than the skeleton; more than two pipelined messages")
 
 	add("C07",
-		cat(each("H_C07", l(0), l(8), l(0, 1, 2)), each("H_C07", l(0), l(9), l(0)), each("H_C07", l(0), seq(3, 7), l(2)), each("H_C07", l(15, 16, 17), l(4), l(0, 1, 3))),
-		cat(each("H_C07", l(0), l(9, 10, 11), l(0, 2)), each("H_C07", l(0), l(12), l(1)), each("H_C07", l(15, 16, 17), l(6, 8), l(1, 3))),
-		"ParseHeaders (no header-specific value parsers) vs. a non-incremental reference tokeniser on fully symbolic blocks of 3-9 (12) bytes and on templates with known header names, capacities 0..3: count, name/value spans, type = literal-table classification, type flags, first-of-type",
+		cat(each("H_C07", l(0), l(8), l(0, 1, 2)), each("H_C07", l(0), l(9), l(0)), each("H_C07", l(0), seq(3, 7), l(2)), each("H_C07", l(15, 16, 17), l(4), l(0, 1, 3)),
+			each("H_C07_at", l(0), l(7), l(0, 1, 2), l(1)), each("H_C07_at", l(15, 16, 17), l(4), l(1, 3), l(2, 300))),
+		cat(each("H_C07_at", l(0), l(8, 9), l(1, 2), l(3)), each("H_C07_at", l(15, 16, 17), l(6), l(0, 2), l(1, 4096)),
+			each("H_C07", l(0), l(9, 10, 11), l(0, 2)), each("H_C07", l(0), l(12), l(1)), each("H_C07", l(15, 16, 17), l(6, 8), l(1, 3))),
+		"ParseHeaders (no header-specific value parsers) vs. a non-incremental reference tokeniser on fully symbolic blocks of 3-9 (12) bytes and on templates with known header names, capacities 0..3: count, name/value spans, type = literal-table classification, type flags, first-of-type; the same with the block at a non-zero offset and delivered in two pieces (every cut)",
 		"blocks longer than the bound; more than 6 headers per block; header-specific value rewriting (C05/C09)")
 
 	add("C08",
@@ -210,11 +219,14 @@ func checkDefs() map[string]CheckDef {
 		cat(each("H_C09_shape", l(1, 2, 8, 13), l(0), l(0, 1, 2, 3, 4, 5, 7, 8, 9, 10, 11), l(2)),
 			each("H_C09_shape", l(8), l(0, 1), l(6), l(0)),
 			each("H_C09_shape", l(1, 2, 8, 13), l(1), l(0, 1, 3, 5), l(2)),
+			each("H_C09_shape", l(1, 8), l(2, 3), l(0, 2, 3, 4, 5, 7, 8, 9, 11), l(2)), each("H_C09_shape", l(2, 13), l(2, 3), l(0, 3, 5, 8), l(2)),
+			each("H_C09_shape", l(8), l(2, 3), l(6), l(0)),
 			each("H_C09_list", l(0), l(0, 1, 2, 3), l(1)), each("H_C09_list", l(1), l(0), l(1)),
 			each("H_C09_hdrs", l(1, 2)), each("H_C09_minmax", l(1, 2, 3))),
 		cat(each("H_C09_shape", l(1, 2, 8, 13), l(0), l(0, 1, 2, 3, 4, 5, 7, 8, 9, 10, 11), l(4, 5)),
+			each("H_C09_shape", l(8), l(2, 3), l(1, 10), l(2)), each("H_C09_shape", l(1, 13), l(2, 3), l(0, 2, 3, 4, 5, 7, 8, 11), l(3)),
 			each("H_C09_list", l(0), l(0, 2), l(3)), each("H_C09_hdrs", l(5))),
-		"From/To/Contact/PAI values built from 12 shapes (angle / quoted name / token name / bare URI / expires+q / lr / star / quoted tag / two-token name / escaped quoted name with fold / bare URI with LWS and 3 parameters / expires+tag+valueless) with class-constrained symbolic components of 2 (4-5) bytes, parameter names in symbolic letter case and symbolic optional LWS (none, SP, HT, fold) at the legal places, directly and through ParseHdrLine (kind of header); 3-value lists with commas inside quotes and <> incl. exact spans; min / max expires and counts over two Contact headers + Expires through ParseHeaders with capacities 0..2",
+		"From/To/Contact/PAI values built from 12 shapes (angle / quoted name / token name / bare URI / expires+q / lr / star / quoted tag / two-token name / escaped quoted name with fold / bare URI with LWS and 3 parameters / expires+tag+valueless) with class-constrained symbolic components of 2 (4-5) bytes, parameter names in symbolic letter case and symbolic optional LWS (none, SP, HT, fold) at the legal places, directly and through ParseHdrLine (kind of header), also at a non-zero offset and delivered in two pieces (every cut); 3-value lists with commas inside quotes and <> incl. exact spans; min / max expires and counts over two Contact headers + Expires through ParseHeaders with capacities 0..2",
 		"values outside the shapes; whitespace inside <>; more than 3 values")
 
 	add("C10",
@@ -233,11 +245,12 @@ func checkDefs() map[string]CheckDef {
 			each("H_offset", l(40, 43), l(0), l(9, 12), l(2, 14, 256)),
 			each("H_offset", l(40, 41), l(1, 3, 5, 9), l(3), l(1, 255, 256, 65480)),
 			each("H_offset", l(40, 42), l(7, 21, 22), l(2), l(1, 3, 256)),
-			each("H_offset", l(41), tplBoundary, l(3), l(2, 256))),
+			each("H_offset", l(41), tplBoundary, l(3), l(2, 256)),
+			each("H_C11_reloc", l(0), seq(1, 7)), each("H_C11_reloc", l(1, 2), seq(1, 5))),
 		cat(each("H_offset", l(0, 1, 2, 3, 6, 8, 11, 12, 13, 16, 19, 22, 23, 25, 30, 34), l(0), l(7), l(2, 257, 4096, 65528)), each("H_offset", l(0, 1, 2, 6, 8, 11, 23), l(0), l(8), l(3, 256)),
 			each("H_offset", l(40, 41), l(1, 3, 5, 9), l(5), l(7, 257, 65478))),
-		"same text at offset k vs. offset 0 for the message parser and every stand-alone parser: contents fully symbolic (4-5 (7-8) bytes, first lines shorter than the 14-byte look-ahead, templates incl. Content-Length + body), the two bytes before the text symbolic, k in {1,2,3,7,8,15,16,31,32,63,64,127,128,255,256,257,511,512,1023,1024,4095,4096,32767,32768, 65535-len-..} (every power-of-two boundary and the addressing limit)",
-		"k is a finite set, not every value 1..65535-len (universal over contents only); relocation of parsed URIs is C18")
+		"same text at offset k vs. offset 0 for the message parser and every stand-alone parser: contents fully symbolic (4-5 (7-8) bytes, first lines shorter than the 14-byte look-ahead, templates incl. Content-Length + body), the two bytes before the text symbolic, k in {1,2,3,7,8,15,16,31,32,63,64,127,128,255,256,257,511,512,1023,1024,4095,4096,32767,32768, 65535-len-..} (every power-of-two boundary and the addressing limit); relocation (AdjustOffs) of every accepted URI of scheme + 1..7 symbolic bytes onto a span of its own length at EVERY 16-bit offset k (symbolic): all components shifted by k, numbers unchanged",
+		"for the parsers k is a finite set, not every value 1..65535-len (universal over contents only); relocation onto spans other than the text length is C18")
 
 	add("C12",
 		cat(each("H_reset", l(0, 1, 2, 6, 8, 22, 23), l(0), l(6), l(0), l(6)),
@@ -276,22 +289,25 @@ func checkDefs() map[string]CheckDef {
 
 	add("C15",
 		cat(each("H_C15_reflexive", seq(1, 6)), each("H_C15_symmetric", l(1, 2, 3), l(2, 3)), each("H_C15_entry", l(1, 2, 3), l(1, 2, 3)), each("H_C15_entry_reuse", l(1, 3), l(2, 3)),
-			each("H_C15_case", l(1), l(2)), each("H_C15_presence", seq(0, 3)), each("H_C15_order", l(0, 1, 2))),
-		cat(each("H_C15_reflexive", l(7, 8, 9, 10)), each("H_C15_symmetric", l(4, 5), l(3, 4)), each("H_C15_symmetric", l(5), l(5)), each("H_C15_entry", l(4, 5), l(3, 4, 5)), each("H_C15_entry_reuse", l(4, 5), l(4, 5)), each("H_C15_case", l(2), l(3))),
-		"URIs = sip: (any case) + up to 6 (10) symbolic bytes each, all 64 skip-flag sets symbolic; precondition (lists parse, no duplicate names) decided with the library's own list parsers; reflexive, symmetric, flag monotonicity, entry-point agreement incl. handed-back URIs (fresh and re-used hand-back structures), case insensitivity on a template, two parameters / headers in opposite order with independent symbolic values (equal iff values agree), presence rule for user/ttl/method/maddr",
+			each("H_C15_case", l(1), l(2)), each("H_C15_case6", l(1), l(2, 3)), each("H_C15_presence", seq(0, 3)), each("H_C15_order", l(0, 1, 2))),
+		cat(each("H_C15_reflexive", l(7, 8, 9, 10)), each("H_C15_symmetric", l(4, 5), l(3, 4)), each("H_C15_symmetric", l(5), l(5)), each("H_C15_entry", l(4, 5), l(3, 4, 5)), each("H_C15_entry_reuse", l(4, 5), l(4, 5)), each("H_C15_case", l(2), l(3)), each("H_C15_case6", l(2), l(5, 6))),
+		"URIs = sip: (any case) + up to 6 (10) symbolic bytes each, all 64 skip-flag sets symbolic; precondition (lists parse, no duplicate names) decided with the library's own list parsers; reflexive, symmetric, flag monotonicity, entry-point agreement incl. handed-back URIs (fresh and re-used hand-back structures), case insensitivity on a template (host name and IPv6 reference with symbolic hex digits), two parameters / headers in opposite order with independent symbolic values (equal iff values agree), presence rule for user/ttl/method/maddr",
 		"longer URIs; more than 6 parameters")
 
 	add("C16",
 		cat(each("H_C16_hdr", seq(0, 20)), each("H_C16_mth", seq(0, 10)), each("H_C16_round"), each("H_C16_str"), each("H_C16_parse", seq(1, 8), l(0, 1)), each("H_C16_parse", l(12, 14), l(0)),
-			each("H_C16_parse_at", l(2, 4, 7), l(0, 1, 2), l(1, 9)), each("H_C16_parse", l(3, 6), l(2))),
-		cat(each("H_C16_parse_at", l(1, 3, 5, 6, 8, 12), l(1, 2), l(3, 4096)), each("H_C16_hdr", seq(21, 24)), each("H_C16_mth", l(11, 12)), each("H_C16_parse", l(19), l(0))),
-		"GetHdrType for every byte string of length 0..20 (24) and GetMethodNo for length 0..10 (12) vs. a linear scan of a literal copy of the table; Name()/String() total; round trip; ParseHdrLine assigns the same classification, also with white space before the colon and with the line at a non-zero offset",
+			each("H_C16_parse_at", l(2, 4, 7), l(0, 1, 2), l(1, 9)), each("H_C16_parse", l(3, 6), l(2)),
+			each("H_C16_parse_chunk", l(2, 4, 7), l(0, 1, 2), l(0, 3))),
+		cat(each("H_C16_parse_at", l(1, 3, 5, 6, 8, 12), l(1, 2), l(3, 4096)), each("H_C16_parse_chunk", l(1, 3, 5, 6, 8, 12), l(1, 2), l(2, 300)), each("H_C16_hdr", seq(21, 24)), each("H_C16_mth", l(11, 12)), each("H_C16_parse", l(19), l(0))),
+		"GetHdrType for every byte string of length 0..20 (24) and GetMethodNo for length 0..10 (12) vs. a linear scan of a literal copy of the table; Name()/String() total; round trip; ParseHdrLine assigns the same classification, also with white space before the colon, with the line at a non-zero offset and delivered in two pieces (every cut)",
 		"names longer than 24 bytes (only the length test can matter there)")
 
 	add("C17",
-		cat(each("H_C17_tok", l(0), l(6), seq(0, 6)), each("H_C17_tok", l(20), l(4), l(0, 1, 2)), each("H_C17_lists", l(0), l(6), l(0, 1, 3))),
-		cat(each("H_C17_tok", l(0), l(8, 9, 10), seq(0, 6)), each("H_C17_lists", l(0), l(8, 9), l(0, 2))),
-		"ParseTokenParam in its documented loop on 6 (10) fully symbolic bytes for 7 option sets (both separators, ',' '?' end-of-header and end-of-input terminators): every reported name/value is inside the documented character set, stripped, in order, with exactly one '=' between them, complete quoted values, and nothing but LWS / separators lies outside the reported parameters; list wrappers count / classify / accumulate",
+		cat(each("H_C17_tok", l(0), l(6), seq(0, 6)), each("H_C17_tok", l(20), l(4), l(0, 1, 2)), each("H_C17_lists", l(0), l(6), l(0, 1, 3)),
+			each("H_C17_tok", l(67, 68), l(3), seq(0, 6)), each("H_C17_tok_chunk", l(67, 68), l(3), l(0, 1, 6)),
+			each("H_C17_tok_chunk", l(0), l(6), l(0, 1, 6)), each("H_C17_tok_chunk", l(20), l(4), l(0, 1))),
+		cat(each("H_C17_tok", l(0), l(8, 9, 10), seq(0, 6)), each("H_C17_tok_chunk", l(0), l(8, 9), l(0, 1, 6)), each("H_C17_tok", l(67, 68), l(5), seq(0, 6)), each("H_C17_tok_chunk", l(67, 68), l(5), l(0, 1, 6)), each("H_C17_lists", l(0), l(8, 9), l(0, 2))),
+		"ParseTokenParam in its documented loop on 6 (10) fully symbolic bytes for 7 option sets (both separators, ',' '?' end-of-header and end-of-input terminators): every reported name/value is inside the documented character set, stripped, in order, with exactly one '=' between them, complete quoted values that end at the first unescaped quote (templates with a 3 (5)-byte window inside a quoted value), and nothing but LWS / separators lies outside the reported parameters; list wrappers count / classify / accumulate; the same loop over an input delivered in two pieces (every cut) for the option sets without the end-of-input option",
 		"POptTokSpTermF lists; longer inputs")
 
 	add("C18",
@@ -308,9 +324,9 @@ func checkDefs() map[string]CheckDef {
 		"header sets other than the skeleton; more than 8 stored headers")
 
 	add("C20",
-		cat(each("H_C20_prefix", seq(1, 12), l(4)), each("H_C20_prefix", l(8), l(0, 3, 5)), each("H_C20_contains", seq(1, 12)), each("H_C20_cid", l(0, 1, 2), l(0, 1, 2))),
-		cat(each("H_C20_prefix", l(13, 14, 15, 16), l(4)), each("H_C20_contains", l(13, 14, 15)), each("H_C20_cid", l(3), l(0, 1)), each("H_C20_cid", l(0, 1), l(3))),
-		"IP4Prefix on every byte string of length 1..12 (16), ContainsIP4 1..12 (15), GetCallIDSig flags on an address with 0..2 (3) symbolic bytes before and after, vs. a non-incremental reference (four groups of 1-3 digits <= 255, maximal munch)",
+		cat(each("H_C20_prefix", seq(1, 16), l(4)), each("H_C20_prefix", l(8), l(0, 3, 5)), each("H_C20_prefix_full", l(3), l(1, 2)), each("H_C20_prefix_full", l(2), l(2)), each("H_C20_contains", seq(1, 12)), each("H_C20_cid", l(0, 1, 2), l(0, 1, 2))),
+		cat(each("H_C20_prefix", l(17, 18, 19, 20), l(4)), each("H_C20_prefix_full", l(3), l(3, 4)), each("H_C20_contains", l(13, 14, 15)), each("H_C20_cid", l(3), l(0, 1)), each("H_C20_cid", l(0, 1), l(3))),
+		"IP4Prefix on every byte string of length 1..16 (20) and on four dot-separated groups of 3 symbolic bytes + 1-2 (4) symbolic followers, ContainsIP4 1..12 (15), GetCallIDSig flags on an address with 0..2 (3) symbolic bytes before and after, vs. a non-incremental reference (four groups of 1-3 digits <= 255, maximal munch)",
 		"longer strings")
 	return m
 }
